@@ -516,13 +516,16 @@ func (c11Prop) NumCases(tier string) int {
 	if tier == "thorough" {
 		return 100000
 	}
-	return 2500
+	return 6000
 }
 
 var c11Biased = []string{
 	`topk(2, m0)`, `bottomk by (a) (1, m0)`, `quantile(0.5, m0)`, `quantile by (b) (0.9, m0)`, `m0 * on(a) group_left(c) m1`,
 	`m0 + on(a, b) m1`, `sum(m0)`, `avg by (a) (m0)`, `stddev(m0)`, `topk(3, rate(m0[1m]))`, `m0 > on(a,b,c) m1`, `count by (a, b) (m0)`,
 	`max by (c) (m0) / on(c) min by (c) (m1)`, `-m0`, `sum by (a) (-m0)`, `histogram_quantile(0.5, h_bucket)`,
+	// the same select consumed by several operators of one plan (shared through the selector pool)
+	`m0 * 2 + -m0`, `(m0 - 1) / on(a, b, c) m0`, `m0 * 2 > on(a, b, c) m0`, `abs(m0) + on(a, b, c) -m0`, `m0 + on(a, b, c) rate(m0[1m])`,
+	`(m0 > 1) + on(a, b, c) (1 + m0)`, `sum by (a) (m0 * 2) / on(a) max by (a) (-m0)`, `quantile(1, m0)`, `quantile by (a) (0, m0)`,
 }
 
 func (c11Prop) Gen(seed uint64, tier string, i int) Case {
@@ -534,7 +537,7 @@ func (c11Prop) Gen(seed uint64, tier string, i int) Case {
 	}
 	c.Engine.LookbackMs = GenLookback(r)
 	c.Engine.Opt = Pick(r, []string{"none", "default"})
-	c.Dataset = GenDataset(r.Fork(), c.Window, c.Engine.LookbackMs, 40, false, r.P(0.2))
+	c.Dataset = GenDataset(r.Fork(), c.Window, c.Engine.LookbackMs, 40, r.P(0.3), r.P(0.2))
 	if r.P(0.45) {
 		c.Query = Pick(r, c11Biased)
 	} else {
